@@ -13,6 +13,6 @@ CONSTANTS NP = 1
           GNormal = {1, 2, 3}
           GIgnored = {}
           GBig = {2}
-          GKindSel = "all"
+          GKindSel = "two"
           GBsInit = {{1, 2}}
 INVARIANTS Emit
